@@ -60,6 +60,78 @@ def frame_c08_slots_never_reassigned(f, base):
         return row("c08.slots_never_reassigned", False, "slot buffer type changed: %s" % ty, undecided="PinSlotMap.slots is no longer %s (got %s): the address-stability argument must be re-reviewed" % (base["c08_slots_type"], ty))
     return row("c08.slots_never_reassigned", True, "PinSlotMap.slots: %s, assigned only by struct construction; never passed to mem::swap/replace/take" % ty[0])
 
+C08_MOVERS = {"replace", "take", "swap", "read", "read_unaligned", "read_volatile", "into_inner", "into_inner_unchecked", "copy", "copy_nonoverlapping",
+              "transmute", "transmute_copy", "drain", "swap_remove", "into_vec", "to_vec", "split_off", "swap_with_slice", "rotate_left",
+              "rotate_right", "reverse", "sort", "sort_by", "sort_unstable", "retain", "retain_mut", "extend_from_slice", "clone_from_slice", "copy_from_slice", "copy_within"}
+
+def frame_c08_slot_map_moves(f, base):
+    """slot_map.rs owns the pinned storage; the other modules only ever obtain Pin<&mut F> from it (getting a plain
+    &mut needs `unsafe`, which c06.unsafe_frame enumerates).  So a by-value move of a held child can only be written
+    inside slot_map.rs: none of its functions may call a function that moves/copies values out of or between places."""
+    allowed = base.get("c08_slot_map_movers", {})
+    bad = []
+    for fn, cs in sorted(f["calls"].items()):
+        if not fn.startswith("src/slot_map.rs:"):
+            continue
+        for c in cs:
+            last = c.split("::")[-1].lstrip(".")
+            if last in C08_MOVERS and c not in allowed.get(fn, []):
+                bad.append("%s calls %s" % (fn, c))
+    if bad:
+        return row("c08.slot_map_moves", False, "a function of the pinned slot map moves slot contents by value: " + "; ".join(bad[:5]), where=bad[0].split(" ")[0])
+    n = sum(1 for fn in f["calls"] if fn.startswith("src/slot_map.rs:"))
+    return row("c08.slot_map_moves", True, "%d functions of src/slot_map.rs, none calls mem::replace/take/swap, ptr::read/copy, drain, swap_remove, into_vec, ... (vacating a slot is the in-place assignment `*slot = Slot::NextFree(..)` through Pin::set)" % n)
+
+ORD_RANK = {"Relaxed": 0, "Acquire": 1, "Release": 1, "AcqRel": 2, "SeqCst": 3}
+
+def frame_c03_atomic_orderings(f, base):
+    """Memory orderings are outside what Verus / Kani decide here (DESIGN 7).  What CAN be held fixed is the frame: the
+    atomic accesses that the release protocol of the shared allocation consists of (reference count increments /
+    decrements and the fence before the release) are the reviewed ones, with orderings at least as strong.  A weakened
+    ordering, a removed fence/access, or a new Relaxed access to the reference count is reported."""
+    exp = [tuple(x[:3]) + (tuple(x[3]),) for x in base["c03_atomic_sites"]]
+    cur = [(a["fn"], a["op"], a["receiver"], tuple(a["orderings"])) for a in f.get("atomic_sites", [])]
+    bad, new = [], []
+    remaining = list(cur)
+    for e in exp:
+        same = [c for c in remaining if c[:3] == e[:3]]
+        if not same:
+            bad.append("%s: %s(%s) on `%s` is gone" % (e[0], e[1], ",".join(e[3]), e[2]))
+            continue
+        c = same[0]
+        remaining.remove(c)
+        if len(c[3]) != len(e[3]) or any(ORD_RANK.get(x, 0) < ORD_RANK.get(y, 0) or (x != y and ORD_RANK.get(x) == ORD_RANK.get(y)) for x, y in zip(c[3], e[3])):
+            bad.append("%s: %s on `%s` is now %s (reviewed: %s)" % (c[0], c[1], c[2], ",".join(c[3]), ",".join(e[3])))
+    for c in remaining:
+        if "Relaxed" in c[3]:
+            bad.append("%s: new %s(%s) on `%s` - an unsynchronised access next to the release protocol" % (c[0], c[1], ",".join(c[3]), c[2]))
+        else:
+            new.append("%s: new %s(%s) on `%s`" % (c[0], c[1], ",".join(c[3]), c[2]))
+    if bad:
+        return row("c03.atomic_orderings", False, "reference-count / fence protocol of the shared waker allocation changed: " + "; ".join(bad[:5]), where=bad[0].split(":")[0])
+    if new:
+        return row("c03.atomic_orderings", False, "", undecided="new atomic access(es) not in the reviewed frame: " + "; ".join(new[:5]))
+    return row("c03.atomic_orderings", True, "%d atomic accesses / fences, all as reviewed (%s); this is a frame, not a proof of race freedom" % (len(cur), "; ".join("%s %s %s" % (c[0].split("::")[-1], c[1], ",".join(c[3])) for c in cur)))
+
+def frame_c12_ready_mark_sites(f, base):
+    """A slot is put on the ready queue without a waker invocation only where a poll is owed: for a newly accepted child
+    (try_push_with, from_iter) and for a merge source that just yielded an item (re-arm).  Any other marking site adds
+    child polls that no push, wake or item pays for."""
+    exp = [tuple(x) for x in base["c12_mark_sites"]]
+    remaining = list(exp)
+    extra = []
+    for m in f.get("mark_sites", []):
+        t = (m["fn"], m["callee"], m["receiver"])
+        if t in remaining:
+            remaining.remove(t)
+        elif m["fn"].startswith("::waker/"):
+            continue    # inside a RawWaker vtable function: that IS a waker invocation
+        else:
+            extra.append("%s:%d %s.%s in %s" % (m["file"], m["line"], m["receiver"], m["callee"], m["fn"]))
+    if extra:
+        return row("c12.ready_mark_sites", False, "slot(s) marked ready outside push / re-arm: " + "; ".join(extra[:5]), where=extra[0].split(" ")[0])
+    return row("c12.ready_mark_sites", True, "%d ready-marking sites, all on the enumerated paths (accepting a child, re-arming a merge source, the waker itself)" % len(f.get("mark_sites", [])))
+
 def frame_c12_no_poll_outside_loop(f, base):
     exp = [tuple(x) for x in base["c12_poll_sites"]]
     remaining = list(exp)
@@ -118,18 +190,24 @@ ORDER_RULES = [
     ("src/waker_list.rs:::waker/wake_by_ref", ".lock", ".enqueue", "the queued flag is tested under the slot lock before the slot is enqueued"),
     ("src/waker_list.rs:WakerList::pop", ".try_dequeue_unchecked", "=*slot.wake_lock.lock()<-false", "the queued flag is cleared only after the slot left the queue"),
     ("src/waker_list.rs:WakerList::push", ".lock", ".enqueue", "the queued flag is tested under the slot lock before the slot is enqueued"),
-    ("src/waker_list.rs:::waker/wake", "wake_by_ref", "drop_waker", "wake() notifies before it gives up its reference"),
+    ("src/waker_list.rs:::waker/wake", "wake_by_ref", "drop_waker", "wake() notifies before it gives up its reference",
+     # the same steps written out in place of the two calls are the same protocol
+     [(".lock", ".enqueue"), (".enqueue", ".notify"), (".notify", ".dec_strong")]),
     ("src/futures_unordered_bounded.rs:FuturesUnorderedBounded::poll_inner_no_remove", ".register", ".pop", "the task waker is registered before the ready queue is drained"),
 ]
 
 def frame_c01_protocol_order(f, base):
     bad, lost = [], []
-    for fn, a, b, why in ORDER_RULES:
+    for rule in ORDER_RULES:
+        fn, a, b, why = rule[:4]
+        alt = rule[4] if len(rule) > 4 else None
         seq = f.get("call_seq", {}).get(fn)
         if seq is None:
             lost.append("%s not found" % fn)
             continue
         r = _before(seq, a, b)
+        if r is None and alt and all(_before(seq, x, y) for x, y in alt):
+            continue
         if r is None:
             # one of the two calls disappeared: a dropped step of the protocol
             bad.append("%s: `%s` or `%s` is missing (%s)" % (fn, a, b, why))
